@@ -38,9 +38,9 @@ CHECK_DEADLOCK FALSE
 """
 
 
-def _spec_hash(tier):
+def _spec_hash(tier, module="MC_Semantics.tla"):
     h = hashlib.sha1()
-    for f in ("Semantics.tla", "MC_Semantics.tla"):
+    for f in ("Semantics.tla", module):
         h.update(open(os.path.join(tlc.SPEC_DIR, f), "rb").read())
     h.update(tier.encode())
     return h.hexdigest()[:16]
@@ -50,7 +50,10 @@ def tier_params(tier):
     return {"tier": tier, "L": 2 if tier == "quick" else 3}
 
 
-def run_model(rep, tier, mut="none", emit_dir=None, invariants=INVARIANTS):
+VALE_INVARIANTS = ["C12_CodeIsMeaning", "C12_ValCodeIsValSem", "C12_Nested", "C12_Algebra"]
+
+
+def run_model(rep, tier, mut="none", emit_dir=None, invariants=INVARIANTS, module="MC_Semantics.tla"):
     """One TLC run of MC_Semantics: design invariants (+ rows when emit_dir is given)."""
     invs = "\n".join(f"INVARIANT {i}" for i in invariants)
     if emit_dir:
@@ -61,29 +64,31 @@ def run_model(rep, tier, mut="none", emit_dir=None, invariants=INVARIANTS):
     with open(cfg, "w") as fh:
         fh.write(CFG % {"tier": tier, "L": p["L"], "emit": "TRUE" if emit_dir else "FALSE", "mut": mut, "invs": invs})
     try:
-        return tlc.run_tlc("MC_Semantics.tla", cfg, env={"ROW_DIR": emit_dir or "/nonexistent"}, timeout=7200,
+        return tlc.run_tlc(module, cfg, env={"ROW_DIR": emit_dir or "/nonexistent"}, timeout=7200,
                            heap="16g")
     finally:
         os.remove(cfg)
 
 
-def build_rows(rep, tier):
+def build_rows(rep, tier, module="MC_Semantics.tla", invariants=None):
     """Return the directory holding objs.json and row_*.json for this tier (cached by spec hash)."""
-    d = os.path.join(SCRATCH, f"rows-{tier}-{_spec_hash(tier)}")
+    tag = module[3:-4].lower()
+    invariants = invariants or INVARIANTS
+    d = os.path.join(SCRATCH, f"rows-{tag}-{tier}-{_spec_hash(tier, module)}")
     if os.path.exists(os.path.join(d, "DONE")):
         st = json.load(open(os.path.join(d, "DONE")))
         rep.cov["states"] = rep.cov.get("states", 0) + st["distinct"]
         rep.cov["transitions"] = rep.cov.get("transitions", 0) + st["generated"]
         rep.cov.setdefault("tlc_runs", []).append({"label": "MC_Semantics (cached rows of this spec version)", **st})
         return d
-    for old in glob.glob(os.path.join(SCRATCH, f"rows-{tier}-*")):
+    for old in glob.glob(os.path.join(SCRATCH, f"rows-{tag}-{tier}-*")):
         shutil.rmtree(old, ignore_errors=True)
     os.makedirs(d, exist_ok=True)
-    res = run_model(rep, tier, emit_dir=d)
-    rep.tlc(res, f"MC_Semantics {tier}: design invariants + rows")
+    res = run_model(rep, tier, emit_dir=d, invariants=invariants, module=module)
+    rep.tlc(res, f"{module} {tier}: design invariants + rows")
     if res.violated:
         shutil.rmtree(d, ignore_errors=True)
-        rep.machinery(f"MC_Semantics ({tier}) violates {res.violated}: the specification of the generated check "
+        rep.machinery(f"{module} ({tier}) violates {res.violated}: the specification of the generated check "
                       f"contradicts the declarative semantics at hint index "
                       f"{[s.get('hid') for a, s in res.error_trace][-1:]} - fix the model")
     with open(os.path.join(d, "DONE"), "w") as fh:
@@ -91,17 +96,18 @@ def build_rows(rep, tier):
     return d
 
 
-def run_mutants(rep, tier="quick", muts=("union_first_only", "seq_len_minus_1")):
+def run_mutants(rep, tier="quick", muts=("union_first_only", "seq_len_minus_1"), module="MC_Semantics.tla",
+                invariants=None):
     """Spec mutants of the generated check must be rejected by the design invariants."""
     os.makedirs(SCRATCH, exist_ok=True)
     for m in muts:
-        cache = os.path.join(SCRATCH, f"mutant-{m}-{_spec_hash(tier)}.json")
+        cache = os.path.join(SCRATCH, f"mutant-{m}-{_spec_hash(tier, module)}.json")
         if os.path.exists(cache):
             st = json.load(open(cache))
             rep.add("spec_mutants_killed")
             rep.cov.setdefault("spec_mutants", []).append({"mutant": m, "rejected_by": st["violated"], "cached": True})
             continue
-        res = run_model(rep, tier, mut=m)
+        res = run_model(rep, tier, mut=m, invariants=invariants or INVARIANTS, module=module)
         if res.violated:
             json.dump({"violated": res.violated}, open(cache, "w"))
         if not res.violated:
@@ -251,6 +257,9 @@ def _replay_row(w, row, objs, real, jmap, confs, lcm, opts, out):
             out["samples"].append({"hint": short_hint(h), "real_hint": repr(hint)[:120], "conf": cabs,
                                    "object": short_obj(objs[j]), "accept_mask": verd[j], "spec_code": code[jmap[j]],
                                    "spec_chk_mask": chk[jmap[j]]})
+        # ---- C12: is_valid, generated code and boolean meaning coincide -----------------------------
+        if "C12" in props and spi == 0:
+            _vale_checks(w, row, hint, objs, real, jmap, verd, full, code, out)
         # ---- C18: the configuration rewrite equals rewriting the hint by hand ------------------------
         if "C18" in props and ci in (3, 4) and spi == 0:
             from beartype import BeartypeConf
@@ -527,6 +536,74 @@ def _viol_confs(w, row, hint, cabs, objs, real, jmap, verd, todo, lcm, props, ou
                                        f"{label}/{name}: message does not name the hint {hint!r}: {msg[:160]}")
                             if extra.get("is_color") is False and "\x1b[" in str(exc):
                                 _issue(out, "C03", "colour", row, j, objs, f"{label}/{name}: is_color=False but ANSI in message")
+
+
+_DIAG = re.compile(r"^\s*~?\s*(True|False) ==\s+(.*?)\s*$")
+
+
+def _vale_checks(w, row, hint, objs, real, jmap, verd, full, code, out):
+    from beartype.door import die_if_unbearable
+    h = row["h"]
+    n = len(objs)
+    if h["k"] == "ann":
+        vals = row.get("val")
+        leaves = []
+        reals = [w.validator(v, leaves) for v in h["m"]]
+        exact = h["a"][0]["k"] in ("any", "cls")
+        for j in range(n):
+            x = real[j]
+            jm = jmap[j]
+            for i, rv in enumerate(reals):
+                want = bool(vals[jm] >> i & 1)
+                try:
+                    got = rv.is_valid(x)
+                except Exception as ex:   # noqa
+                    got = f"{type(ex).__name__}: {ex}"[:100]
+                out["n_calls"] += 1
+                if got is not want:
+                    _issue(out, "C12", "is_valid", row, j, objs,
+                           f"validator {i} .is_valid() says {got}, boolean meaning (ValSem) says {want}")
+            if exact and (verd[j] == full) != bool(code[jm] & 1):
+                _issue(out, "C12", "code_vs_meaning", row, j, objs,
+                       f"checking accepts={verd[j] == full} but T and all validators hold={bool(code[jm] & 1)}")
+        # the verdict reported in the violation message
+        shown = 0
+        for j in range(n):
+            if verd[j] or shown >= 6:
+                continue
+            x = real[j]
+            if not all(bool(vals[jmap[j]] >> i & 1) is False for i in range(1)) and len(reals) == 1:
+                continue
+            try:
+                die_if_unbearable(x, hint)
+                continue
+            except Exception as ex:   # noqa
+                msg = _ANSI.sub("", str(ex))
+            out["n_calls"] += 1
+            if "violates validator" not in msg:
+                continue
+            shown += 1
+            lines = msg.split("violates validator", 1)[1].splitlines()
+            marks = [(m.group(1) == "True", m.group(2)) for m in map(_DIAG.match, lines) if m]
+            if not marks:
+                continue
+            if marks[0][0] is not False:
+                _issue(out, "C12", "diagnosis_root", row, j, objs,
+                       "violation message reports the violated validator as True")
+            byrepr = dict(leaves)
+            for val, text in marks:
+                t = text.rstrip(" &|.)").strip()
+                rv = byrepr.get(t)
+                if rv is None:
+                    continue
+                # a leaf nested in IsAttr is evaluated on the attribute, not on x: only top-level leaves here
+                try:
+                    want = rv.is_valid(x)
+                except Exception:   # noqa
+                    continue
+                if val is not want:
+                    _issue(out, "C12", "diagnosis_leaf", row, j, objs,
+                           f"violation message reports {t} as {val} but is_valid says {want}")
 
 
 def replay(rep, rows_dir, opts, procs=16):
